@@ -29,6 +29,7 @@ type Program struct {
 	pureExt  map[string]bool
 	immutHeaps map[string]bool // field heaps declared immutable
 	models   map[string]modelFn
+	inlinableMemo map[*ssa.Function]bool
 }
 
 type modelFn func(ex *Exec, st *State, args []T, c *ssa.CallCommon) []T
@@ -65,6 +66,7 @@ func loadProgram(repoDir, specDir string, patterns []string) (*Program, error) {
 	prog, _ := ssautil.AllPackages(pkgs, ssa.NaiveForm)
 	P := &Program{fset: prog.Fset, pkgs: pkgs, prog: prog, spkgs: map[string]*ssa.Package{}, specs: map[string]*PkgSpec{}, byFunc: map[*ssa.Function]*Contract{}, funcs: map[string]*ssa.Function{}, repoDir: repoDir, specDir: specDir, pureExt: map[string]bool{}}
 	P.models = builtinModels()
+	P.inlinableMemo = map[*ssa.Function]bool{}
 	for _, sp := range prog.AllPackages() {
 		if strings.HasPrefix(sp.Pkg.Path(), modPath) {
 			sp.Build()
